@@ -3,7 +3,7 @@ import json
 import re
 
 from .lib import (PLUMBING, callee_allow, callers, closure_args_of_call, lit_strs, operand_local)
-from .lib_c10 import (closure_site, impl_fns, ok_sources, upvar_fields, upvar_origin, upvar_params)
+from .lib_c10 import (closure_site, impl_fns, ok_sources, upvar_fields, upvar_origin, upvar_params, value_sources)
 
 LEVEL = "other"
 TECHNIQUE = ("static analysis: value-preserving CHAIN slices from every decoder input / extractor payload back to the request, sibling agreement of the "
@@ -54,15 +54,32 @@ def _chain(ctx, R, key, fn, operand, allow, site, origin=None, must_call=None, c
     """One CHAIN instance: slice of `operand` in fn has only allow-listed callees, no binop/unop,
     (optionally) no constants, reaches `must_call`, and `origin(slice)` holds.  `pre` = (ok, text): a
     condition established by the caller that belongs to the same instance."""
-    sl = fn.slice(operand)
+    if isinstance(operand, list):
+        # several alternative sources of one value (one per match arm / path): every one of them must satisfy the chain
+        ok, details, sl = bool(operand), [], None
+        for o in operand:
+            sl = fn.slice(o)
+            o_ok, d = _chain_verdict(sl, key, allow, origin, must_call, consts_ok, what)
+            ok = ok and o_ok
+            if d not in details:
+                details.append(d)
+        detail = " | ".join(details) or "no source of the value found"
+    else:
+        sl = fn.slice(operand)
+        ok, detail = _chain_verdict(sl, key, allow, origin, must_call, consts_ok, what)
+    if pre is not None:
+        ok = ok and pre[0]
+        detail = pre[1] + "; " + detail
+    ctx.check(R, key, ok, detail, site)
+    return sl
+
+
+def _chain_verdict(sl, key, allow, origin, must_call, consts_ok, what):
     bad = callee_allow(sl, allow)
     ops = sorted(set(a[1] for a in sl.atoms if a[0] in ("binop", "unop")))
     cs = [] if consts_ok else _consts(sl)
     ok = not bad and not ops and not cs
     detail = "%s: off-list callees %s; arithmetic/logic %s; constants %d" % (what or key, sorted(set(b[0] for b in bad)), ops, len(cs))
-    if pre is not None:
-        ok = ok and pre[0]
-        detail = pre[1] + "; " + detail
     if must_call:
         has = sl.has_call(must_call)
         ok = ok and has
@@ -71,8 +88,7 @@ def _chain(ctx, R, key, fn, operand, allow, site, origin=None, must_call=None, c
         o, od = origin(sl)
         ok = ok and o
         detail += "; origin %s" % od
-    ctx.check(R, key, ok, detail, site)
-    return sl
+    return ok, detail
 
 
 def _ok_chain(ctx, R, key, fn, allow, site, **kw):
@@ -94,7 +110,7 @@ def _wraps(ctx, R, key, ds, b, adt_rx, allow, must_call, consts_ok=False):
     for ab, i, st in b.aggregates(adt_rx):
         if ab in b.reachable(0):
             n += 1
-            _chain(ctx, R, key, b, st["rv"]["ops"][0], allow, (b, ab), must_call=must_call, consts_ok=consts_ok)
+            _chain(ctx, R, key, b, value_sources(b, st["rv"]["ops"][0]), allow, (b, ab), must_call=must_call, consts_ok=consts_ok)
     for h in ds.children(b):
         for ab, i, st in h.aggregates(adt_rx):
             if ab not in h.reachable(0):
@@ -107,7 +123,8 @@ def _wraps(ctx, R, key, ds, b, adt_rx, allow, must_call, consts_ok=False):
             if len(maps) != 1:
                 ctx.check(R, key, False, pre[1], (h, ab))
             for bb, t in maps:
-                _chain(ctx, R, key, b, t["args"][0], allow, (b, bb), must_call=must_call, consts_ok=consts_ok, pre=pre)
+                _chain(ctx, R, key, b, ok_sources(b, operand_local(t["args"][0])) if operand_local(t["args"][0]) is not None else t["args"][0], allow, (b, bb),
+                       must_call=must_call, consts_ok=consts_ok, pre=pre)
     if n == 0:
         ctx.lost(R, "%s: no literal of the extractor type under %s" % (key, b.id))
 
@@ -135,7 +152,7 @@ def _from_params(want):
 
 # ------------------------------------------------------------------------------------------------ R1
 def r1_decoder_inputs(ctx):
-    R = ctx.rule("C09.R1", "every decoder is fed this request's data through value-preserving operations only, and every extractor wraps exactly its decoder's output", floor=29)
+    R = ctx.rule("C09.R1", "every decoder is fed this request's data through value-preserving operations only, and every extractor wraps exactly its decoder's output", floor=33)
     ds = ctx.ds
     # ---- path
     pimpl = [f for i, f in impl_fns(ds, r"^extractor::common::SharedExtractor$", "from_request") if "path::Path" in i["self"]]
@@ -405,11 +422,14 @@ def r2_primitive_table(ctx):
                 ps = g.slice(pt["args"][0])
                 in_ok = ps.has_call(r"from_map::MapValue::as_value$") and not callee_allow(ps, raw_allow) and not _consts(ps) and ps.params() == [2]
                 # visit input: the parse result (Ok payload), nothing else
-                vs = vg.slice(vt["args"][1])
-                v_ok = vg is g and any(b == pbb for _, b, _ in vs.calls(r"parse$|from_str$")) and not callee_allow(vs, raw_allow + [r"str::<impl str>::parse$", r"str::FromStr::from_str$"]) \
-                    and not [a for a in vs.atoms if a[0] in ("binop", "unop")] and not _consts(vs)
+                # (the Ok side only: `match parse() {Ok(v) => visit(v), Err(_) => Err(msg)}` and `let v = parse().map_err(|_| msg)?; visit(v)` are the same program)
+                vss = [vg.slice(o) for o in value_sources(vg, vt["args"][1])]
+                v_ok = vg is g and bool(vss)
+                for vs in vss:
+                    v_ok = v_ok and any(b == pbb for _, b, _ in vs.calls(r"parse$|from_str$")) and not callee_allow(vs, raw_allow + [r"str::<impl str>::parse$", r"str::FromStr::from_str$"]) \
+                        and not [a for a in vs.atoms if a[0] in ("binop", "unop")] and not _consts(vs)
                 cast = [1 for b_, i_, s_ in vg.stmts() if s_["rv"]["rv"] == "cast" and s_["rv"].get("kind", "").startswith(("IntToInt", "FloatToInt", "IntToFloat", "FloatToFloat"))
-                        and vs.touches_local(s_["pl"]["l"])]
+                        and any(vs.touches_local(s_["pl"]["l"]) for vs in vss)]
                 ok = pty == T and vname == "visit_" + T and in_ok and v_ok and not cast
                 d = "parse::<%s> -> %s; parse input is as_value(raw)=%s; visit input is the parsed value=%s; numeric casts on the way=%d" % (pty, vname, in_ok, v_ok, len(cast))
             ctx.check(R, "primitive:%s" % T, ok, d, top)
@@ -826,6 +846,38 @@ _LOOP = """        let mut chunks = std::pin::pin!(self.into_stream());
         }
         Ok(out)"""
 
+_U16_AS_U8_TRY = """    fn deserialize_u16<V>(self, visitor: V) -> Result<V::Value, MapError>
+    where
+        V: Visitor<'de>,
+    {
+        self.value(|raw_value| {
+            let text = raw_value.as_value()?;
+            let parsed = text.parse::<u8>().map_err(|_| {
+                MapError(format!("unable to parse '{}' as u16", text))
+            })?;
+            visitor.visit_u16(parsed as u16)
+        })
+    }"""
+_DE_VALUE_MATCH = """                self.value(|raw_value| match raw_value.as_value()?.parse::<$i>() {
+                    Ok(value) => visitor.[<visit_ $i>](value),
+                    Err(_) => Err(MapError(format!(
+                        "unable to parse '{}' as {}",
+                        raw_value.as_value()?,
+                        type_name::<$i>()
+                    ))),
+                })"""
+_DE_VALUE_TRY = """                self.value(|raw_value| {
+                    let text = raw_value.as_value()?;
+                    let parsed: $i = text.parse().map_err(|_| {
+                        MapError(format!(
+                            "unable to parse '{}' as {}",
+                            text,
+                            type_name::<$i>()
+                        ))
+                    })?;
+                    visitor.[<visit_ $i>](parsed)
+                })"""
+
 SELFTEST = [
     {"name": "query-lowercased", "kind": "mutant",
      "edits": [("dropshot/src/extractor/query.rs", "serde_urlencoded::from_str(raw_query_string)", "serde_urlencoded::from_str(&raw_query_string.to_lowercase())")],
@@ -863,6 +915,12 @@ SELFTEST = [
     {"name": "loop-accumulator-keeps-last-chunk", "kind": "mutant",
      "edits": [("dropshot/src/extractor/body.rs", _FOLD, _LOOP % "out.clear();\n            out.put(chunk);")],
      "expect": ["C09.R1"], "why": "(loop idiom) the buffer is cleared before every append, so only the last frame reaches the handler"},
+    {"name": "u16-parsed-as-u8-try-idiom", "kind": "mutant",
+     "edits": [("dropshot/src/from_map.rs", "    de_value!(u16);", _U16_AS_U8_TRY)],
+     "expect": ["C09.R2"], "why": "(map_err + `?` idiom) a u16 path value is parsed as u8 and widened"},
+    {"name": "de-value-map-err-and-try", "kind": "benign",
+     "edits": [("dropshot/src/from_map.rs", _DE_VALUE_MATCH, _DE_VALUE_TRY)],
+     "why": "behaviour-preserving: in every deserialize_<T> the match on parse() is spelled `parse().map_err(..)?` followed by the visit call"},
     {"name": "accumulate-by-while-let-loop", "kind": "benign",
      "edits": [("dropshot/src/extractor/body.rs", _FOLD, _LOOP % "out.put(chunk);")],
      "why": "behaviour-preserving: try_fold(BytesMut::new(), ..) spelled as a pinned stream drained by `while let Some(chunk) = s.try_next().await?`"},
